@@ -43,8 +43,9 @@ const genBase = epoch + 3600
 var (
 	secret32 = "0123456789abcdefghijklmnopqrstuv"
 	secrets  = []string{"", "s", secret32}
-	users    = []string{"", "u", "a:b", "üñí"}
-	realms   = []string{"", "r", "pion.ly"}
+	// long user ids and realms: "username:realm:password" of 100 .. 500 bytes (USERNAME may be 513 bytes, REALM 763)
+	users  = []string{"", "u", "a:b", "üñí", strings.Repeat("u", 100), strings.Repeat("long-user-id/", 30)}
+	realms = []string{"", "r", "pion.ly", strings.Repeat("r", 127), strings.Repeat("realm.example.", 20)}
 	// the required set {-10s,-1s,0,1s,59s,1h,100d} plus sub-second durations
 	// (the stamp is floor(now+duration)) and one that carries the stamp past 2^31.
 	durs = []time.Duration{-10 * time.Second, -time.Second, -time.Millisecond, 0, time.Millisecond, time.Second,
@@ -205,7 +206,12 @@ type baseCase struct {
 
 // baseCases enumerates kind x secret x user x realm; the plain generator has
 // no user part, so its user dimension collapses to one value.
-func baseCases() []baseCase {
+func baseCases() []baseCase { return baseCasesOf(users, realms) }
+
+// shortBaseCases leaves the long user ids / realms out (the mutation part's cost is quadratic in their length).
+func shortBaseCases() []baseCase { return baseCasesOf(users[:4], realms[:3]) }
+
+func baseCasesOf(users, realms []string) []baseCase {
 	var out []baseCase
 	for _, k := range kinds {
 		for _, s := range secrets {
